@@ -170,6 +170,14 @@ where
         let ska_file = BufReader::new(File::open(filename)?);
         let decompress_reader = snap::read::FrameDecoder::new(ska_file);
         let ska_obj: Self = ciborium::de::from_reader(decompress_reader)?;
+        if ska_obj.k_bits != IntT::n_bits() {
+            return Err(format!(
+                "File uses {}-bit split k-mers, not {}-bit",
+                ska_obj.k_bits,
+                IntT::n_bits()
+            )
+            .into());
+        }
         Ok(ska_obj)
     }
 
